@@ -8,16 +8,56 @@ from . import core, httpgen as hg, httpcheck as hc
 XDEVS = ["schema.empty_value_allowed", "schema.map_key_rule_undocumented", "schema.map_length_undocumented", "schema.uint_minimum_missing",
          "schema.optional_not_nullable", "schema.bytes_length_on_encoded_text", "schema.response_cookie_value_schema", "schema.error_response_media_type"]
 TDEVS = ["param.empty_string_is_absent", "validate.absent_collection_length", "client.path_not_escaped", "mux.double_unescape",
-         "response.header_array_joined", "cookie.value_sanitized"]
+         "response.header_array_joined", "cookie.value_sanitized", "server.required_cookie_resets_errors"]
 ALLDEVS = XDEVS + TDEVS
 INVS = "SchemaAgreesWithServer SchemaAgreesWithDesign ProducedResponseConforms"
 
 
-def gen_vectors(ctx, fam, label=None, workers="auto", npa=1, nra=1, simulate=None):
-    r = ctx.gen("mc/MC_OpenAPIOps", "gen/Gen_OpenAPIOps_schema.cfg", consts={"Family": '"%s"' % fam, "NPA": npa, "NRA": nra},
-                label=label or ("Gen exchanges %s %dx%d%s" % (fam, npa, nra, " (simulate)" if simulate else "")), timeout=1500,
-                workers=(1 if simulate else workers), simulate=simulate, depth=(40 if simulate else None))
+def gen_vectors(ctx, fam, label=None, workers="auto", npa=1, nra=1, simulate=None, shapes=None):
+    """Exchanges of one family.  `shapes` (list of attribute shapes) restricts the enumeration to a sample."""
+    cfg, files = "gen/Gen_OpenAPIOps_schema.cfg", None
+    if shapes is not None:
+        cfg = "gen/Gen_OpenAPIOps_schema_sel.cfg"
+        files = {"shapes.ndjson": "".join(json.dumps({"a": a}) + "\n" for a in shapes)}
+    r = ctx.gen("mc/MC_OpenAPIOps", cfg, consts={"Family": '"%s"' % fam, "NPA": npa, "NRA": nra}, files=files,
+                label=label or ("Gen exchanges %s %dx%d%s" % (fam, npa, nra, " (simulate)" if simulate else (" (%d shapes)" % len(shapes) if shapes else ""))),
+                timeout=1500, workers=(1 if simulate else workers), simulate=simulate, depth=(40 if simulate else None))
     return r.vectors
+
+
+def gen_shapes(ctx, fam):
+    r = ctx.gen("mc/MC_OpenAPIOps", "gen/Gen_OpenAPIOps_shapes.cfg", consts={"Family": '"%s"' % fam}, label="Gen shapes " + fam, workers=2, timeout=600)
+    return [v["a"] for v in r.vectors]
+
+
+def sample_shapes(shapes, nshapes, seed):
+    """A seeded subset of attribute shapes: a greedy cover of all pairs of features (kind, location, mode, rule, nesting) that
+    occur, then random shapes up to nshapes."""
+    import random
+    keys = sorted(core.canon(a) for a in shapes)
+    by = {core.canon(a): a for a in shapes}
+    if len(keys) <= nshapes:
+        return [by[k] for k in keys]
+    rnd = random.Random(seed)
+    rnd.shuffle(keys)
+    fields = ("kind", "loc", "mode", "rule", "nest")
+    pairs = {k: {(f, by[k][f], g, by[k][g]) for i, f in enumerate(fields) for g in fields[i + 1:]} for k in keys}
+    todo = set().union(*pairs.values())
+    keep = []
+    while todo:
+        best = max(keys, key=lambda k: len(pairs[k] & todo))
+        gain = pairs[best] & todo
+        if not gain:
+            break
+        keep.append(best)
+        todo -= gain
+    chosen = list(keep)
+    for k in keys:
+        if len(chosen) >= nshapes:
+            break
+        if k not in keep:
+            chosen.append(k)
+    return [by[k] for k in chosen]
 
 
 # ------------------------------------------------------------------ raw requests (what no generated client sends)
@@ -38,6 +78,10 @@ def raw_request(v, meth):
     if v["flag"] == "null":
         body = json.dumps({"a1": None})
         headers["Content-Type"] = ["application/json"]
+    elif v["flag"] == "omit":
+        if a["loc"] == "body":
+            body = "{}"
+            headers["Content-Type"] = ["application/json"]
     else:
         t = raw_text(a, val)
         if a["loc"] == "path":
